@@ -57,7 +57,7 @@ func subsetsDesc(ages []int64) [][]int64 { // every non-empty subset, oldest fir
 	return out
 }
 
-func c02Full(archs []wsp.Arch) func(AState) []AOp {
+func c02Full(archs []wsp.Arch, method uint32) func(AState) []AOp {
 	return func(st AState) []AOp {
 		var ops []AOp
 		for i := 0; i+1 < len(archs); i++ {
@@ -98,6 +98,15 @@ func c02Full(archs []wsp.Arch) func(AState) []AOp {
 						ops = append(ops, AOp{Kind: "WB", Arch: -1, Ages: []int64{st1, 0, fut}, Vals: []float64{1, 4, -2}})
 					}
 				}
+			}
+			// an explicit "no value" among the finer values (what copying NaN stores): it is a stored value like any other,
+			// so sum and average over it are NaN, first/last pick it by position (max/min over NaN are left alone: the
+			// statement does not say which operand a comparison with NaN keeps)
+			if method != 4 && method != 5 && len(sl) >= 2 {
+				ops = append(ops, AOp{Kind: "W1", Arch: i, Ages: []int64{sl[0]}, Vals: []float64{NaNVal}})
+				ops = append(ops, AOp{Kind: "W1", Arch: i, Ages: []int64{sl[1]}, Vals: []float64{NaNVal}})
+				ops = append(ops, AOp{Kind: "WB", Arch: i, Ages: []int64{sl[1], sl[0]}, Vals: []float64{NaNVal, 4}})
+				ops = append(ops, AOp{Kind: "WB", Arch: i, Ages: []int64{sl[1], sl[0]}, Vals: []float64{NaNVal, NaNVal}})
 			}
 			ops = append(ops, denseBatch(a, i))
 			d := denseBatch(a, i) // dense with every slot supplied twice
@@ -187,7 +196,7 @@ func runC02(c *fw.Ctx) {
 						page = 16
 					}
 					cfg := ACfg{Tag: ld.Tag, Spec: ld.Spec, Archs: ld.Archs, Method: m, XFF: xff, Page: page}
-					e := &Explorer{C: c, Cfg: cfg, Now0: now, Depth: depth, Gen: c02Gen(cfg.Archs), Full: c02Full(cfg.Archs), MaxCore: maxCore}
+					e := &Explorer{C: c, Cfg: cfg, Now0: now, Depth: depth, Gen: c02Gen(cfg.Archs), Full: c02Full(cfg.Archs, cfg.Method), MaxCore: maxCore}
 					if li >= 6 { // the thorough tier's additional layouts: quick settings
 						e.Depth, e.MaxCore = 3, 40
 					}
